@@ -355,6 +355,11 @@ let () =
                | [br; bl; bd], [sr; sl; sd] ->
                  let panicked = (br = "panic" || sr = "panic") in
                  if br <> sr then report_spec ~prop:"C13" ~pred:"zst_returns_like_std" ~detail:(br ^ "_vs_std_" ^ sr);
+                 (* a reservation std refuses (its total count is not representable) and bumpalo grants *)
+                 let is_reserve = (let has sub = (try ignore (Str.search_forward (Str.regexp_string sub) name 0); true with Not_found -> false) in
+                                   has "Reserve") in
+                 if is_reserve && (sr = "panic" || sr = "ok:false") && br <> sr then
+                   report_spec ~prop:"C19" ~pred:"zst_impossible_reservation_refused" ~detail:(br ^ "_vs_std_" ^ sr);
                  if bl <> sl && not panicked then report_spec ~prop:"C13" ~pred:"zst_len_like_std" ~detail:(bl ^ "_vs_std_" ^ sl);
                  if bd <> sd && not panicked then report_spec ~prop:"C15" ~pred:"zst_drops_like_std" ~detail:(bd ^ "_vs_std_" ^ sd)
                | _ -> ())
